@@ -7,6 +7,12 @@ a nested-dict reference model; after every transition the structure read from `v
 model's, the returned value must equal the model's, and on every new state every observer (getitem dotted
 and step by step, `in`, get, items/keys/values with and without branches, as_dict, clone + independence,
 ==, conversions from and to dicts) is compared with the model.
+
+Conversion from a caller-owned dictionary (`check_conversion`): on the dictionary every state stands for and on
+every dictionary of a small grammar (`conv` run: dicts in lists, behind scalars, in nested lists, in tuples,
+non-string keys, empty containers) dict_to_namespace must give the model's expansion, leave the source
+untouched, share nothing with it, round-trip through as_dict(), and a repeated conversion of the same object
+must be equal to and independent of the first.
 """
 from __future__ import annotations
 
